@@ -127,6 +127,12 @@ func verifyFunction(w *World, fn *ssa.Function, c *Contract, sweep bool) (res *F
 			if lbl == "" {
 				lbl = fmt.Sprint(i)
 			}
+			if strings.HasPrefix(lbl, "defn") {
+				// a definitional clause: it says how a ghost variable (specification-only state, which the code
+				// cannot assign) changes across the call; callers assume it, nothing is proved about it here
+				e.w.Trusted["definitional ghost update of "+funcDisplayName(fn)+": "+en.Text] = true
+				continue
+			}
 			e.addObl(fn, "post", "["+lbl+"] "+en.Text, fn.Pos(), exit.Reach, f)
 		}
 		if !c.ModAll {
